@@ -1110,6 +1110,41 @@ pub fn every_length_and_holes_family(pool: &Pool) -> Vec<T> {
     v
 }
 
+/// A nullable term S next to a loop R^[i,j] whose body contains S (as an alternative, or is S itself): absorption
+/// rules `S . R* = R*` are tempting and hold only for unbounded loops. All small bounds, S in front and behind, and
+/// loops whose DERIVATIVE has the shape S . R^[i,j-1].
+pub fn nullable_beside_loop_family(pool: &Pool) -> Vec<T> {
+    let (a, bb) = (T::Chr(pool.a), T::Chr(pool.b));
+    let ss: Vec<T> = vec![
+        T::Opt(b(&a)),
+        T::Opt(Box::new(T::Str(vec![pool.a, pool.b]))),
+        T::Star(b(&a)),
+        T::Alt2(b(&T::Eps), b(&bb)),
+    ];
+    let ranges: [(u32, Option<u32>); 7] = [(0, Some(1)), (0, Some(2)), (0, Some(3)), (1, Some(2)), (2, Some(2)), (0, None), (2, None)];
+    let mut v = vec![];
+    for s in &ss {
+        let bodies: Vec<T> = vec![T::Alt2(b(s), b(&bb)), s.clone(), T::Alt2(b(s), Box::new(T::Chr(pool.c))), T::Alt2(b(&a), b(&bb))];
+        for (ri, r) in bodies.iter().enumerate() {
+            for (k, &(i, j)) in ranges.iter().enumerate() {
+                let lp = T::Loop(b(r), i, j);
+                v.push(T::Cat2(b(s), b(&lp)));
+                if (ri + k) % 2 == 0 {
+                    v.push(T::Cat2(b(&lp), b(s)));
+                } else {
+                    v.push(T::CatL(vec![bb.clone(), s.clone(), lp.clone()]));
+                }
+            }
+        }
+        // the derivative for the first letter of x is  s . R^[i, j-1]
+        for &(i, j) in &[(0u32, Some(3u32)), (1, Some(3)), (0, Some(2)), (0, None)] {
+            let body = T::Alt2(Box::new(T::Cat2(Box::new(T::Chr(pool.c)), b(s))), b(s));
+            v.push(T::Loop(b(&body), i, j));
+        }
+    }
+    v
+}
+
 /// Ranges whose end points are landmark code points (ends of narrower character types, the surrogate block, U+FFFD,
 /// planes): alone, complemented, followed by a letter, and two of them side by side.
 pub fn landmark_range_family() -> Vec<T> {
